@@ -70,7 +70,100 @@ func build(ps []string, sched [][]int) *algz.Trie {
 	return t
 }
 
+// links: the failure links the specification (AhoImpl.tla) computes for a pattern set, compared with the links of the
+// real trie under every build schedule (white box, through the export file of the scratch copy)
+func runLinks(c *core.Case, st *core.CaseStats) {
+	sym := []string{"", "a", "中", "é", "😀"}
+	conv := func(xs []int) string {
+		var b strings.Builder
+		for _, x := range xs {
+			b.WriteString(sym[x])
+		}
+		return b.String()
+	}
+	var rawP [][]int
+	json.Unmarshal(c.S, &rawP)
+	ps := make([]string, len(rawP))
+	for i, p := range rawP {
+		ps[i] = conv(p)
+	}
+	var pairs [][][]int
+	json.Unmarshal(c.Out, &pairs)
+	want := map[string]string{}
+	for _, pr := range pairs {
+		want[conv(pr[0])] = conv(pr[1])
+	}
+	n := len(ps)
+	all := make([]int, n)
+	rev := make([]int, 0, n+2)
+	for i := range all {
+		all[i] = i + 1
+		rev = append(rev, n-i)
+	}
+	rev = append(rev, n, 0)
+	h := n / 2
+	if h == 0 {
+		h = 1
+	}
+	scheds := [][][]int{{all}, {rev}, {all[:h], all[h:]}, {all[h:], all[:h]}, {all, {}}}
+	st.Nontrivial++
+	for _, sc := range scheds {
+		in := map[string]interface{}{"patterns": ps, "build_schedule": sc}
+		st.Calls++
+		var got map[string][]interface{}
+		msg, p := core.Guard(func() { got = linksOf(build(ps, sc)) })
+		if p {
+			st.Add(core.Mismatch{Fn: "BuildFailureLinks", Kind: "panic", Case: c, Input: in, Expected: "no panic", Actual: msg})
+			continue
+		}
+		if got == nil {
+			return // no white box in this build
+		}
+		for node, f := range want {
+			g, ok := got[node]
+			if !ok || g[0] != f {
+				// a wrong link: look for a text on which the queries go wrong because of it (the node's path followed
+				// by the rest of a pattern); the verdict is the query result against the byte-wise definition.
+				// Without such a witness the difference is reported as drift only.
+				kind, witness := "drift", interface{}(nil)
+				tr := build(ps, sc)
+				for u := range want {
+					for _, p := range ps {
+						for k := 0; k <= len(p) && kind == "drift"; k++ {
+							text := u + p[k:]
+							wantOcc := []string{}
+							for _, q := range ps {
+								for o := 0; o+len(q) <= len(text); o++ {
+									if text[o:o+len(q)] == q {
+										wantOcc = append(wantOcc, q)
+									}
+								}
+							}
+							var fa []string
+							core.Guard(func() { fa = tr.FindAll(text) })
+							if !eq(sortedCopy(fa), sortedCopy(wantOcc)) {
+								kind = "value"
+								witness = map[string]interface{}{"text": text, "FindAll": sortedCopy(fa), "occurrences": sortedCopy(wantOcc)}
+							}
+						}
+					}
+				}
+				st.Add(core.Mismatch{Fn: "BuildFailureLinks", Kind: kind, Case: c, Input: in,
+					Expected: map[string]interface{}{"node": node, "link": f}, Actual: map[string]interface{}{"link": g, "witness": witness}})
+				break
+			}
+		}
+		if len(got) != len(want) {
+			st.Add(core.Mismatch{Fn: "BuildFailureLinks", Kind: "drift", Case: c, Input: in, Expected: len(want), Actual: len(got)})
+		}
+	}
+}
+
 func run(c *core.Case, st *core.CaseStats, seed int64) {
+	if c.Fn == "links" {
+		runLinks(c, st)
+		return
+	}
 	var scheds [][][]int
 	json.Unmarshal(c.X, &scheds)
 	if len(scheds) == 0 {
